@@ -320,4 +320,150 @@ Theorem take_length fuel n (s : sig) : n <= fuel ->
   length (fst (collect_take fuel (n, s))) = n /\ take_next (snd (collect_take fuel (n, s))) = (None, (0, after n s)).
 Proof. intros H. rewrite take_frames by assumption. cbn [fst snd]. now rewrite map_length, seq_length. Qed.
 
+(* ---- into_interleaved_samples ---- *)
+Hypothesis channels_nonempty : forall f, channels f <> [].
+
+Notation inter := (Sig.inter F Sm SS FS).
+Definition mk (s : sig) (c : option (list Sm)) : inter := {| isig := s; icur := c |}.
+Definition pending (c : option (list Sm)) : list Sm := match c with Some l => l | None => [] end.
+Definition frames_samples (s : sig) (m : nat) : list Sm :=
+  concat (map (fun i => channels (stream s i)) (seq 0 m)).
+
+Lemma frames_samples_S s m : frames_samples s (S m) = channels (stream s 0) ++ frames_samples (step s) m.
+Proof.
+  unfold frames_samples. cbn [seq map concat]. f_equal. rewrite <- seq_shift, map_map. reflexivity.
+Qed.
+
+Lemma ns_cons k s x t : next_sample (S k) (mk s (Some (x :: t))) = Ok (Some x, mk s (Some t)).
+Proof. reflexivity. Qed.
+Lemma ns_nil k s : next_sample (S (S k)) (mk s (Some [])) = next_sample (S k) (mk s None).
+Proof. reflexivity. Qed.
+
+Lemma ns_none k s m : live_len s = Some m ->
+  match m with
+  | 0 => next_sample (S k) (mk s None) = Ok (None, mk s None)
+  | S _ => exists c cs, channels (stream s 0) = c :: cs /\
+                        next_sample (S k) (mk s None) = Ok (Some c, mk (step s) (Some cs))
+  end.
+Proof.
+  intros Hl. pose proof (exhausted_live s) as E. rewrite Hl in E.
+  destruct m as [|m]; cbn [is_zero] in E.
+  - cbn [Sig.next_sample mk icur isig]. rewrite E. reflexivity.
+  - destruct (next s) as [x s'] eqn:N.
+    assert (Hx : stream s 0 = x) by (unfold Sig.stream; cbn [Sig.after]; now rewrite N).
+    assert (Hs : step s = s') by (unfold SigProofs.step; now rewrite N).
+    destruct (channels x) as [|c cs] eqn:C; [now apply channels_nonempty in C|].
+    exists c, cs. rewrite Hx, Hs. split; [assumption|].
+    cbn [Sig.next_sample mk icur isig]. rewrite E, N. cbn [icur isig]. rewrite C. reflexivity.
+Qed.
+
+Theorem interleaved_spec : forall fuel s c m, live_len s = Some m ->
+  length (pending c ++ frames_samples s m) < fuel ->
+  collect_samples fuel (mk s c) = Ok (pending c ++ frames_samples s m, mk (after m s) None).
+Proof.
+  induction fuel as [|fuel IH]; intros s c m Hl Hlen; [lia|].
+  cbn [Sig.collect_samples].
+  assert (Hnone : forall k,
+    match next_sample (S k) (mk s None) with
+    | Ok (Some x, st') =>
+      match collect_samples fuel st' with
+      | Ok (l, st'') => Ok (x :: l, st'') | Panic e => Panic e | UB => UB end
+    | Ok (None, st') => Ok ([], st')
+    | Panic e => Panic e | UB => UB
+    end = Ok (frames_samples s m, mk (after m s) None) \/ S fuel <= length (frames_samples s m)).
+  { intros k. pose proof (ns_none k s m Hl) as H. destruct m as [|m].
+    - left. rewrite H. reflexivity.
+    - destruct H as [c0 [cs [Hc Hn]]]. rewrite Hn.
+      assert (Hl' : live_len (step s) = Some m) by (rewrite live_step, Hl; reflexivity).
+      rewrite frames_samples_S, Hc.
+      destruct (Nat.le_gt_cases (S fuel) (length ((c0 :: cs) ++ frames_samples (step s) m))) as [Hle|Hgt]; [now right|left].
+      rewrite (IH (step s) (Some cs) m Hl'); [reflexivity|]. cbn [pending]. cbn [app length] in Hgt. lia. }
+  destruct c as [[|x t]|]; cbn [pending app] in *.
+  - rewrite ns_nil. destruct (Hnone 0) as [H|H]; [exact H|lia].
+  - rewrite ns_cons. rewrite (IH s (Some t) m Hl); [reflexivity|]. cbn [pending]. cbn [length] in Hlen. lia.
+  - destruct (Hnone 1) as [H|H]; [exact H|lia].
+Qed.
+
+(* the interleaved iterator yields exactly the channels of the frames until_exhausted yields,
+   in channel order, then None (and the signal is left where until_exhausted leaves it) *)
+Theorem interleaved_is_concat fuel fuel' (s : sig) m : live_len s = Some m ->
+  m <= fuel' -> length (frames_samples s m) < fuel ->
+  collect_samples fuel (mk s None) =
+    Ok (concat (map channels (fst (collect_until fuel' s))), mk (snd (collect_until fuel' s)) None) /\
+  next_sample 2 (mk (after m s) None) = Ok (None, mk (after m s) None).
+Proof.
+  intros Hl Hm Hlen. rewrite (until_exhausted_frames fuel' s m Hl Hm). cbn [fst snd]. split.
+  - rewrite (interleaved_spec fuel s None m Hl Hlen). cbn [pending app]. unfold frames_samples. now rewrite map_map.
+  - pose proof (ns_none 1 (after m s) 0) as H. apply H. rewrite live_after, Hl. cbn. f_equal. lia.
+Qed.
+
+Theorem interleaved_count (s : sig) m : (forall f, length (channels f) = nch) ->
+  length (frames_samples s m) = m * nch.
+Proof.
+  intros H. unfold frames_samples. generalize 0. induction m as [|m IH]; intros st; [reflexivity|].
+  cbn [seq map concat]. rewrite app_length, H, IH. lia.
+Qed.
+
+(* ---- lift over pointwise adaptors ---- *)
+Notation clip_sample := (Sig.clip_sample Sm SS to_signed of_signed ss_ltb ss_neg).
+Inductive unary :=
+| UMap (id : Z) (f : F -> F) | UScale (a : FS) | UOffset (o : SS) | UScalePC (a : F) | UOffsetPC (a : F)
+| UClip (t : SS) | UInspect (id : Z).
+
+Definition wrap (u : unary) (s : sig) : sig :=
+  match u with
+  | UMap id f => Map id f s | UScale a => ScaleAmp a s | UOffset o => OffsetAmp o s
+  | UScalePC a => ScaleAmpPerChannel a s | UOffsetPC a => OffsetAmpPerChannel a s
+  | UClip t => ClipAmp t s | UInspect id => Inspect id s
+  end.
+
+Definition ufun (u : unary) : F -> F :=
+  match u with
+  | UMap _ f => f | UScale a => f_scale a | UOffset o => f_offset o
+  | UScalePC a => fun x => f_mul x a | UOffsetPC a => fun x => f_add x a
+  | UClip t => fmap (clip_sample t) | UInspect _ => fun x => x
+  end.
+
+Definition wrap_all (us : list unary) (s : sig) : sig := fold_right wrap s us.
+Definition ufun_all (us : list unary) : F -> F := fold_right (fun u g x => ufun u (g x)) (fun x => x) us.
+
+Lemma wrap_all_live us s : live_len (wrap_all us s) = live_len s.
+Proof. induction us as [|u us IH]; [reflexivity|]. cbn [wrap_all fold_right]. destruct u; cbn [wrap Sig.live_len]; exact IH. Qed.
+
+Lemma wrap_all_stream us s n : stream (wrap_all us s) n = ufun_all us (stream s n).
+Proof.
+  induction us as [|u us IH]; [reflexivity|]. cbn [wrap_all ufun_all fold_right].
+  fold (wrap_all us s). fold (ufun_all us). rewrite <- IH.
+  destruct u; cbn [wrap ufun].
+  - apply pw_map. - apply pw_scale_amp. - apply pw_offset_amp. - apply pw_scale_pc. - apply pw_offset_pc.
+  - apply pw_clip_amp. - apply pw_inspect.
+Qed.
+
+Lemma map_nth_seq {A B} (g : A -> B) d : forall (l : list A), map (fun i => g (nth i l d)) (seq 0 (length l)) = map g l.
+Proof.
+  induction l as [|a l IH]; [reflexivity|]. cbn [length seq map nth]. f_equal.
+  rewrite <- seq_shift, map_map. exact IH.
+Qed.
+
+(* signal::lift(frames, |s| pointwise adaptors over s) yields one mapped frame per input frame, then stops *)
+Theorem lift_pointwise us id l fuel : length l <= fuel ->
+  collect_until fuel (lift F Sm SS FS id l (wrap_all us)) =
+    (map (ufun_all us) l, after (length l) (wrap_all us (from_iter id l))).
+Proof.
+  intros Hf. unfold Sig.lift.
+  assert (Hl : live_len (wrap_all us (from_iter id l)) = Some (length l)) by (rewrite wrap_all_live; apply from_iter_live).
+  rewrite (until_exhausted_frames fuel _ _ Hl Hf). f_equal.
+  rewrite <- (map_nth_seq (ufun_all us) eqm l). apply map_ext. intros i.
+  now rewrite wrap_all_stream, from_iter_stream.
+Qed.
+
+(* for an arbitrary closure: exactly live_len frames of whatever signal the closure builds *)
+Theorem lift_general (f : sig -> sig) id l fuel m : live_len (f (from_iter id l)) = Some m -> m <= fuel ->
+  length (fst (collect_until fuel (lift F Sm SS FS id l f))) = m /\
+  until_next (snd (collect_until fuel (lift F Sm SS FS id l f))) = (None, snd (collect_until fuel (lift F Sm SS FS id l f))).
+Proof.
+  intros Hl Hf. unfold Sig.lift. rewrite (until_exhausted_frames fuel _ _ Hl Hf). cbn [fst snd].
+  split; [now rewrite map_length, seq_length|]. apply (until_exhausted_done _ _ Hl).
+Qed.
+
 End ExhaustProofs.
